@@ -15,6 +15,11 @@ import (
 	"sync"
 	"time"
 
+	"net"
+	"net/http"
+
+	"github.com/bbva/qed/api/apihttp"
+	"github.com/bbva/qed/api/mgmthttp"
 	"github.com/bbva/qed/balloon"
 	"github.com/bbva/qed/protocol"
 
@@ -161,6 +166,13 @@ func nodeDriver(args []string) error {
 			} else {
 				out(map[string]interface{}{"r": "incr", "err": false, "result": protocol.ToIncrementalResponse(p)})
 			}
+		case "serve":
+			// real HTTP muxes (public API and management) over this node
+			apiL, _ := net.Listen("tcp", "127.0.0.1:0")
+			mgmtL, _ := net.Listen("tcp", "127.0.0.1:0")
+			go http.Serve(apiL, apihttp.NewApiHttp(n.Raft))
+			go http.Serve(mgmtL, mgmthttp.NewMgmtHttp(n.Raft))
+			out(map[string]interface{}{"r": "serve", "api": apiL.Addr().String(), "mgmt": mgmtL.Addr().String()})
 		case "state":
 			idx, bver := n.Raft.VerifFSMState()
 			out(map[string]interface{}{"r": "state", "idx": idx, "bver": bver, "version": n.Raft.VerifBalloonVersion()})
